@@ -8,10 +8,13 @@
 (* method through the framing of an actual render, forced support also       *)
 (* through the instantiation gate).                                          *)
 (*                                                                         *)
-(*   trace = [fam, par, nc, init, ev]                                        *)
+(*   trace = [fam, par, nc, geo, init, ev]                                   *)
+(*   geo   = [cw, ch, rw, rh, ow, oh]: cell px, rendered cells, source px     *)
 (*   init  = override maps the history starts from (all unset for recorded   *)
 (*           histories; the spec state for replayed edges, see the driver)   *)
-(*   event = [k, set, n, a, res, eff, gate, used]; observed values (eff) are  *)
+(*   event = [k, set, n, a, res, eff, px, gate, used, usedpx]; px[n] = pixel  *)
+(*           size ("WxH") of the data the no-override render of node n        *)
+(*           transmitted, usedpx = same for a render op; observed values are  *)
 (*           sent in the compact text form Show(v), "skip:0" = not observed   *)
 (*                                                                         *)
 (* Steps are total: S' = Apply(S, op) whatever was observed; the verdict     *)
@@ -34,12 +37,14 @@ vars == <<tid, l, S, Hc, Hi, verdict, at, vset>>
 Tr == Traces[tid]
 T == [par |-> Tr.par, nc |-> Tr.nc]
 Fam == Tr.fam
+G == Tr.geo
 NE == Len(Tr.ev)
 
 WFTrace(tr) ==
   /\ tr.fam \in {"kitty", "iterm2"}
   /\ WellFormedTree([par |-> tr.par, nc |-> tr.nc])
   /\ \A set \in Settings : Len(tr.init[set]) = Len(tr.par)
+  /\ WellFormedGeo(tr.geo)
 
 OpOf(e) == [k |-> e.k, set |-> e.set, n |-> e.n, a |-> e.a]
 
@@ -51,6 +56,7 @@ WFEvent(e) ==
   /\ e.k = "render" => e.set = "rm" /\ (e.a = Unset \/ (e.a.t = "str" /\ e.a.s \in Methods(Fam)))
   /\ \A set \in Settings : Len(e.eff[set]) = Len(T.par)
   /\ Len(e.gate) = Len(T.par)
+  /\ Len(e.px) = Len(T.par)
 
 \* defect hypothesis: an accepted unset at a class (kind = "class") / instance writes the default
 ApplyH(kind, H, op) ==
@@ -63,12 +69,15 @@ ApplyH(kind, H, op) ==
 Diff(e, S2, set) ==
   {n \in Nodes(T) : e.eff[set][n] # "skip:0" /\ e.eff[set][n] # Show(ObsEff(T, Fam, S2, set, n))}
 GateDiff(e, S2) == {n \in Nodes(T) : e.gate[n] # "skip" /\ e.gate[n] # Gate(T, S2, n)}
-MatchesAll(e, S2) == (\A set \in Settings : Diff(e, S2, set) = {}) /\ GateDiff(e, S2) = {}
+\* nodes whose no-override render transmitted data of a size the effective method does not dictate
+PxDiff(e, S2) == {n \in Nodes(T) : e.px[n] # "skip" /\ e.px[n] \notin PxSet(G, Eff(T, S2, "rm", n).s)}
+MatchesAll(e, S2) ==
+  (\A set \in Settings : Diff(e, S2, set) = {}) /\ GateDiff(e, S2) = {} /\ PxDiff(e, S2) = {}
 
 \* every setting whose observation contradicts the model shows exactly what hypothesis H predicts
 ExplainedBy(e, S2, H) ==
   LET bad == {set \in Settings : Diff(e, S2, set) # {}} IN
-  bad # {} /\ GateDiff(e, S2) = {} /\ \A set \in bad : Diff(e, H, set) = {}
+  bad # {} /\ GateDiff(e, S2) = {} /\ PxDiff(e, H) = {} /\ \A set \in bad : Diff(e, H, set) = {}
 
 \* first failing clause of event e; S1 = state before, S2 = state after (model), Hc2/Hi2 = hypotheses after
 Clause(e, S1, S2, Hc2, Hi2) ==
@@ -90,6 +99,9 @@ Clause(e, S1, S2, Hc2, Hi2) ==
   ELSE IF op.k = "render" /\ e.used # FrameOf(Used(T, S1, op)) THEN
     kind \o (IF op.a # Unset THEN "render-ignores-method-override"
              ELSE "render-not-using-effective-method")
+  ELSE IF op.k = "render" /\ e.usedpx \notin PxSet(G, Used(T, S1, op)) THEN
+    kind \o (IF op.a # Unset THEN "render-override-data-not-sized-for-used-method"
+             ELSE "render-data-not-sized-for-effective-method")
   ELSE IF MatchesAll(e, S2) THEN "ok"
   ELSE IF ExplainedBy(e, S2, Hc2) THEN "class-unset-writes-default"
   ELSE IF ExplainedBy(e, S2, Hi2) THEN "instance-unset-writes-default"
@@ -101,12 +113,14 @@ Clause(e, S1, S2, Hc2, Hi2) ==
     kind \o op.k \o "-not-seen-by-inheriting-node"
   ELSE IF D # {} THEN kind \o op.k \o "-changed-unrelated-node"
   ELSE IF \E set \in Settings : Diff(e, S2, set) # {} THEN kind \o op.k \o "-changed-other-setting"
+  ELSE IF PxDiff(e, S2) # {} THEN kind \o op.k \o "-render-data-not-sized-for-effective-method"
   ELSE kind \o op.k \o "-instantiation-gate-disagrees-with-forced-support"
 
 \* the setting a failing clause is about
 ClauseSetting(e, S2) ==
   LET bad == {i \in 1..Len(SettingSeq) : Diff(e, S2, SettingSeq[i]) # {}} IN
   IF ~WFEvent(e) THEN "none"
+  ELSE IF bad = {} /\ GateDiff(e, S2) = {} /\ PxDiff(e, S2) # {} THEN "rm"
   ELSE IF bad = {} \/ Diff(e, S2, e.set) # {} THEN e.set
   ELSE SettingSeq[CHOOSE i \in bad : \A j \in bad : i <= j]
 
